@@ -35,10 +35,23 @@ int par_batch(Cipher c, int be)
     return 64;
 }
 
+/* A handle that does not own a live context is, to the library, uninitialised memory: it is
+ * painted (0xA5, or the --paint pattern; poisoned under MemorySanitizer) right before every
+ * init, so that an init that leaves a field unassigned cannot hide behind a zeroed object. */
+static void paint_dead_handle(void *o, size_t n, void *const *ctx_field)
+{
+    void *ctx; AllocRec *r;
+    memcpy(&ctx, ctx_field, sizeof(ctx)); verif_unpoison(&ctx, sizeof(ctx));   /* may itself be painted memory */
+    r = ctx ? arena_find(ctx) : NULL;
+    if (r && r->live) return;          /* re-initialising a live object: left exactly as it is */
+    verif_paint_obj(o, n);
+}
+
 int ctr_init(Cipher c, int be, CtrObj *o)
 {
     int r = -99;
     g_pin = be;
+    if (o) paint_dead_handle(o, sizeof(*o), &o->raw.ctx);
     switch (c) {
     case CK_S128: LIB(r = skinny128_ctr_init(o ? &o->s128 : NULL)); break;
     case CK_S64: LIB(r = skinny64_ctr_init(o ? &o->s64 : NULL)); break;
@@ -139,6 +152,7 @@ int par_init(Cipher c, int be, ParObj *o)
 {
     int r = -99;
     g_pin = be;
+    if (o) paint_dead_handle(o, sizeof(*o), &o->raw.ctx);
     switch (c) {
     case CK_S128: LIB(r = skinny128_parallel_ecb_init(o ? &o->s128 : NULL)); break;
     case CK_S64: LIB(r = skinny64_parallel_ecb_init(o ? &o->s64 : NULL)); break;
@@ -234,6 +248,7 @@ static size_t image_of(const void *vt_class, const void *ctx, size_t extra, uint
     if (r->live && o + r->size <= cap) {
         size_t i;
         memcpy(buf + o, r->ptr, r->size);
+        verif_unpoison(buf + o, r->size);   /* the harness may look at bytes the library never wrote; only the library may not use them */
         /* normalise self-pointers (base_ptr) */
         for (i = 0; i + 8 <= r->size; ++i) {
             uint64_t w;
